@@ -29,6 +29,7 @@
 #include "bloch/runtime/verif_hooks.hpp"
 #include "bloch/support/error/bloch_error.hpp"
 #include "mini_json.hpp"
+#include "astdump.hpp"
 
 namespace fs = std::filesystem;
 using namespace bloch;
@@ -197,6 +198,13 @@ int main(int argc, char** argv) {
         try {
             if (stage == "lex") {
                 extra = ",\"tokens\":" + tokenDump(job->at("src").s);
+            } else if (stage == "ast") {
+                // lexer + parser only (no loader, no analysis): the tree the parser built
+                compiler::Lexer lx(job->at("src").s);
+                auto toks = lx.tokenize();
+                compiler::Parser ps(std::move(toks));
+                auto prog = ps.parse();
+                extra = ",\"ast\":" + astdump::program(*prog);
             } else {
                 // materialise files
                 fs::path dir = fs::path(work) / ("job" + std::to_string(getpid()));
